@@ -199,6 +199,12 @@ pub fn featdigest(tier: Tier, seed: u64) {
                 for (kind, msg) in c13::replay(&json!({"type": "function", "tt": tt, "vars": n, "writer": (k % 2) * 5})) {
                     run.violation(&format!("C13:{}", kind), format!("{} (function {:#x} over {} variables)", msg, tt, n), json!({"inner_property": "C13", "inner_case": {"type": "function", "tt": tt, "vars": n, "writer": (k % 2) * 5}}));
                 }
+                if n >= 3 {
+                    // the same function once more, queried after every restriction of it was made in its store
+                    for (kind, msg) in c13::replay(&json!({"type": "function", "tt": tt, "vars": n, "writer": 5, "store": 5})) {
+                        run.violation(&format!("C13:{}", kind), format!("{} (function {:#x} over {} variables, queried after its restrictions)", msg, tt, n), json!({"inner_property": "C13", "inner_case": {"type": "function", "tt": tt, "vars": n, "writer": 5, "store": 5}}));
+                    }
+                }
                 if n <= 3 {
                     for (kind, msg) in cold_query_case(tt, n) {
                         run.violation(&format!("C13:{}", kind), format!("{} (function {:#x} over {} variables)", msg, tt, n), json!({"inner_property": "C12-cold", "inner_case": {"type": "cold", "tt": tt, "vars": n}}));
